@@ -20,7 +20,9 @@ Pool == IF NInner > 1 THEN LayerPool ELSE {t \in FullPool : Vals(t)[1] \in (IF P
 ASSUME NInner = 1 \/ NInner >= 11
 VARIABLES tail, left, edit
 vars == <<tail, left, edit>>
-Init == tail = <<>> /\ left = Pool /\ edit \in {<<"none", 0>>} \cup {<<"drop", i>> : i \in 1..Len(Prefix)} \cup {<<"dup", i>> : i \in 1..Len(Prefix)}
+\* "powlast": the nonce line is written after the decommitment lines; "leafearly": the first decommitment line is written before
+\* the nonce line - the file records the same values, each class in the same relative order, so Parse returns the same proof
+Init == tail = <<>> /\ left = Pool /\ edit \in {<<"none", 0>>, <<"powlast", 0>>, <<"leafearly", 0>>, <<"lastlate", 0>>} \cup {<<"drop", i>> : i \in 1..Len(Prefix)} \cup {<<"dup", i>> : i \in 1..Len(Prefix)}
 \* every ordering for the unedited prefix; one fixed ordering (ascending values) for the edited prefixes
 Next == \E t \in left :
           /\ (edit[1] # "none" => \A u \in left : Vals(t)[1] <= Vals(u)[1])
@@ -29,7 +31,13 @@ Spec == Init /\ [][Next]_vars
 EditedPrefix == CASE edit[1] = "drop" -> SubSeq(Prefix, 1, edit[2] - 1) \o SubSeq(Prefix, edit[2] + 1, Len(Prefix))
                   [] edit[1] = "dup" -> SubSeq(Prefix, 1, edit[2]) \o <<Prefix[edit[2]]>> \o SubSeq(Prefix, edit[2] + 1, Len(Prefix))
                   [] OTHER -> Prefix
-Stream == EditedPrefix \o tail
+PowIdx == CHOOSE i \in 1..Len(Prefix) : Prefix[i][1][1] = "pow"
+LastIdx == CHOOSE i \in 1..Len(Prefix) : Prefix[i][1][1] = "last"
+Without(s, i) == SubSeq(s, 1, i - 1) \o SubSeq(s, i + 1, Len(s))
+Stream == CASE edit[1] = "powlast" -> Without(Prefix, PowIdx) \o tail \o <<Prefix[PowIdx]>>
+            [] edit[1] = "leafearly" /\ tail # <<>> -> SubSeq(Prefix, 1, PowIdx - 1) \o <<tail[1]>> \o SubSeq(Prefix, PowIdx, Len(Prefix)) \o Tail(tail)
+            [] edit[1] = "lastlate" -> Without(Prefix, LastIdx) \o tail \o <<Prefix[LastIdx]>>
+            [] OTHER -> EditedPrefix \o tail
 P1 == Parse(Stream, NInner)
 \* every value of a decommitment line lands in exactly one field, in stream order (checked through the definition's own structure)
 Faithful == (left = {} /\ NInner = 1) =>
